@@ -147,6 +147,12 @@ def stats(episodes):
 
 
 def replay(ctx, rp):
+    if rp["spec"].get("driver") == "graph":
+        from harness import runner, trace
+        from harness.result import attach
+        episodes = runner.run_specs([rp["spec"]], 1)
+        tr = trace.validate(episodes, "Trace_Graph.tla", "Trace_Graph.cfg", procs=1)
+        return CheckResult(fails=attach(tr, [rp["spec"]], episodes), coverage={"replayed_events": tr.events})
     if rp["spec"].get("driver") == "suite-scans":
         tr, episodes, fails, _ = validate_suite_scans()
         return CheckResult(fails=fails, coverage={"replayed_events": tr.events})
